@@ -121,7 +121,11 @@ def run(ctx):
     parsed = []
     decl_family = ["decltype(std::declval<const T&>()) a;", "decltype(new T) b;", "decltype(static_cast<unsigned long>(y))* c;",
                    "const decltype(sizeof(long double))& d = e;", "void f(decltype(a + b) x, decltype(const_cast<const int*>(p)) y);",
-                   "std::vector<decltype(new int)> g;", "typename T::template U<int>::type h;", "unsigned long long i; long double j; signed char k;"]
+                   "std::vector<decltype(new int)> g;", "typename T::template U<int>::type h;", "unsigned long long i; long double j; signed char k;",
+                   # shapes the parser rejects today: should a change make it accept them, what it produces must format back
+                   "int (&&x)[3];", "int (&&r)(int);", "int ((*x))[3];", "void (*(*f)(int))(char);", "int (*&r)[3] = a;", "int (S::*pm)(int);",
+                   "int (*const volatile p)[2];", "T (&&fr)();", "Foo<int volatile> v1;", "Foo<int const volatile*> v2;", "Foo<volatile int> v3;",
+                   "int volatile * const volatile cvp;", "void f(int (&&a)[2], int (*const b)(char));", "using A = int (&&)[3];", "typedef int (&&RA)[3];"]
     for t in decl_family + pcommon.corpus()[:: 2] + [gen_prog.gen_program(rng, budget=5)[0] for _ in range(ctx.budget(60, 2000))]:
         try:
             types_in(parse_string(t), parsed)
